@@ -19,7 +19,7 @@ FaultAct(ev) ==
 Act(ev) ==
   CASE Has(ev, "fault")  -> FaultAct(ev)
     [] ev.op = "reset"   -> Reset
-    [] ev.op = "submit"  -> Submit(ev.t, ev.res)
+    [] ev.op = "submit"  -> SubmitAny(ev.t, ev.res)
     [] ev.op = "mkblock" -> MkAnyBlock(ev.p, ev.txs)
     [] ev.op = "play"    -> Play(ev.b, ev.res)
     [] ev.op = "pfm"     -> PlayForMiner(ev.b)
